@@ -336,8 +336,10 @@ def hals_objective(G, B, V, l1, l2):
 
 
 # ----------------------------------------------------------------------------- the runs
-BUDGET = {"quick": dict(cp=80, hals=36, ls=32, norm=12, reg=12, tk=9, cmtf=8, tkreg=8, tr=10, spec=6, proc=6, rep=10, tks=3, modes=40),
-          "thorough": dict(cp=480, hals=220, ls=200, norm=80, reg=50, tk=60, cmtf=50, tkreg=40, tr=60, spec=60, proc=60, rep=80, tks=30, modes=200)}
+# quick: profiled per kind (CPU s / case at Qops: cp 0.7, hals 0.4, ls 0.5, norm 0.8, reg 1.8, tk 2.5, cmtf 0.7, tkreg 1.9, tr 2.6, spec 0.4, proc 0.2, rep 0.5,
+# tks 4.4, modes 0.02): every kind is kept, the budget is dealt out over the (entry, variant, kind) groups starting at a seed-dependent group
+BUDGET = {"quick": dict(cp=48, hals=20, ls=16, norm=8, reg=4, tk=6, cmtf=5, tkreg=4, tr=5, spec=4, proc=4, rep=8, tks=2, modes=32),
+          "thorough": dict(cp=440, hals=200, ls=180, norm=80, reg=50, tk=60, cmtf=50, tkreg=40, tr=50, spec=60, proc=60, rep=80, tks=20, modes=200)}
 KINDS = ("cp", "hals", "ls", "norm", "reg", "tk", "cmtf", "tkreg", "tr", "spec", "proc", "rep", "tks", "modes")
 
 
@@ -374,6 +376,9 @@ class Ctx:
             for c in self.cands[kind]:
                 groups.setdefault(c[0], []).append(c)
             order = sorted(groups)
+            if order:      # a budget below the number of groups must not always serve the same groups: start at a seed-dependent one
+                off = self.rng.randrange(len(order))
+                order = order[off:] + order[:off]
             budget = BUDGET[self.tier][kind]
             picked, depth = [], 0
             while len(picked) < budget and any(len(groups[g]) > depth for g in order):
